@@ -57,7 +57,7 @@ Eval(e, S) ==
          ELSE IF Expect(S, "raise", Str(e.k)) THEN R3(Adv(S), "", Exc("exc:" \o Str(e.k)))
          ELSE R3(S, "", Drift("site " \o Str(e.k)))
     [] e.e = "read" -> R3(S, Lookup(S, e.v), Norm)
-    [] e.e = "const" -> R3(S, "?", Norm)
+    [] e.e \in {"const", "mlstr"} -> R3(S, "?", Norm)
     [] e.e = "walrus" ->
          LET r == Eval(e.x, S) IN
          IF ~IsNorm(r) THEN r
